@@ -412,31 +412,30 @@ Proof.
   exists acc. exact L.
 Qed.
 
-(* returned ⊆ accessible, provided the authorizer found at least one accessible store.
-   Missing part (the full statement has no such hypothesis): accessible = [] — refuted below. *)
-Lemma list_stores_subset_partial g la cl name all acc ids :
-  accessible_stores g la cl = Some acc -> acc <> [] ->
-  list_stores g la cl name all = LSStores ids ->
-  forall s, In s ids -> In s acc.
+Lemma handler_list_stores_subset ids name all st :
+  In st (handler_list_stores backend_list_stores (Some ids) name all) ->
+  In (fst st) ids /\ In st all.
 Proof.
-  intros Ha Hne. unfold list_stores. rewrite Ha. intro H. inversion H; subst. clear H.
-  intros s Hs. apply in_map_iff in Hs. destruct Hs as [st [<- Hst]].
-  apply (backend_list_stores_subset acc name all st Hne Hst).
+  destruct ids as [|i rest]; simpl; [intros []|].
+  intro H. apply (backend_list_stores_subset (i :: rest) name all st); [discriminate | exact H].
 Qed.
 
-(* the same with the live store list made explicit: for every accessible list (it may name
-   stores that were deleted or never existed, and may be longer than the live list) every
-   returned id is accessible AND live *)
-Lemma list_stores_live_subset_partial g la cl name all acc ids :
-  accessible_stores g la cl = Some acc -> acc <> [] ->
+(* returned ⊆ accessible ∩ live, for EVERY accessible list: empty, naming stores that were
+   deleted or never existed, longer than the live list *)
+Lemma list_stores_subset g la cl name all acc ids :
+  accessible_stores g la cl = Some acc ->
   list_stores g la cl name all = LSStores ids ->
   forall s, In s ids -> In s acc /\ In s (map fst all).
 Proof.
-  intros Ha Hne. unfold list_stores. rewrite Ha. intro H. inversion H; subst. clear H.
+  intros Ha. unfold list_stores. rewrite Ha. intro H. inversion H; subst. clear H.
   intros s Hs. apply in_map_iff in Hs. destruct Hs as [st [<- Hst]].
-  destruct (backend_list_stores_subset acc name all st Hne Hst) as [A B].
+  destruct (handler_list_stores_subset acc name all st Hst) as [A B].
   split; [exact A | apply in_map; exact B].
 Qed.
+
+Lemma list_stores_empty_accessible g la cl name all :
+  accessible_stores g la cl = Some [] -> list_stores g la cl name all = LSStores [].
+Proof. intro Ha. unfold list_stores. rewrite Ha. reflexivity. Qed.
 
 Lemma list_stores_sqlite_same_members g la cl name all :
   match list_stores g la cl name all, list_stores_sqlite g la cl name all with
@@ -446,20 +445,22 @@ Lemma list_stores_sqlite_same_members g la cl name all :
   end.
 Proof.
   unfold list_stores, list_stores_sqlite. destruct (accessible_stores g la cl) as [acc|]; [|exact I].
-  intro s. rewrite !in_map_iff. split; intros [st [E H]]; exists st; (split; [exact E|]);
+  destruct acc as [|i rest]; [simpl; tauto|].
+  intro s. simpl handler_list_stores. rewrite !in_map_iff.
+  split; intros [st [E H]]; exists st; (split; [exact E|]);
     apply backend_list_stores_same_members; exact H.
 Qed.
 
 (* "ListStores returns only stores the caller may get", when ListObjects on the control store
    is sound for Check (every listed store passes the can_call_get_store check) *)
-Lemma list_stores_gettable_partial g la c name all acc ids :
-  accessible_stores g la (Claims c) = Some acc -> acc <> [] ->
+Lemma list_stores_gettable g la c name all acc ids :
+  accessible_stores g la (Claims c) = Some acc ->
   (forall s, In s acc -> g c R_CanCallGetStore (OStore s) = Some true) ->
   list_stores g la (Claims c) name all = LSStores ids ->
   forall s, In s ids -> authorize g (Claims c) M_GetStore s [] = Allow.
 Proof.
-  intros Ha Hne Hsound Hl s Hs.
-  pose proof (list_stores_subset_partial g la (Claims c) name all acc ids Ha Hne Hl s Hs) as Hin.
+  intros Ha Hsound Hl s Hs.
+  destruct (list_stores_subset g la (Claims c) name all acc ids Ha Hl s Hs) as [Hin _].
   apply authorize_iff_granted. exists c. split; [reflexivity|]. split.
   - unfold accessible_stores in Ha.
     destruct (authorize_system g (Claims c) M_ListStores) eqn:A; [|discriminate].
@@ -467,40 +468,19 @@ Proof.
   - left. simpl. apply Hsound. exact Hin.
 Qed.
 
-(* witness of F9: client "l" may list stores (and nothing else), the authorizer's ListObjects
-   answer is the empty list, two stores "A" and "B" exist: both are returned, neither may be
-   fetched by the caller *)
+(* the backends still read an empty id list as "no filter"; the skip / no-access-control path
+   (nil list) relies on it *)
+Lemma handler_list_stores_nil_unfiltered name all :
+  handler_list_stores backend_list_stores None name all = backend_list_stores [] name all.
+Proof. reflexivity. Qed.
+
+(* historical witness of F9 (repaired by c075cf0): client "l" may list stores and nothing else,
+   the authorizer's answer is the empty list, stores "A" and "B" exist *)
 Definition f9_client : client := [108].
 Definition f9_g : grant_oracle :=
   fun c r o => match r, o with R_CanCallListStores, OSystem => Some true | _, _ => Some false end.
 Definition f9_la : list_oracle := fun _ => Some [].
 Definition f9_all : list (store_id * bytes) := [([65], [97]); ([66], [98])].
-
-Lemma list_stores_empty_grant_refuted :
-  exists g la c all ids s,
-    accessible_stores g la (Claims c) = Some [] /\
-    tr_list_stores_empty_grant g la (Claims c) = true /\
-    list_stores g la (Claims c) [] all = LSStores ids /\
-    In s ids /\
-    is_allow (authorize g (Claims c) M_GetStore s []) = false.
-Proof.
-  exists f9_g, f9_la, f9_client, f9_all, [[65]; [66]], [66].
-  vm_compute. repeat split; auto.
-Qed.
-
-(* outside the trigger the as-coded filter returns a subset of the authorizer's list *)
-Lemma list_stores_subset_unless_trigger g la cl name all ids :
-  tr_list_stores_empty_grant g la cl = false ->
-  list_stores g la cl name all = LSStores ids ->
-  exists acc, accessible_stores g la cl = Some acc /\ forall s, In s ids -> In s acc.
-Proof.
-  unfold tr_list_stores_empty_grant. intros Ht Hl.
-  destruct (accessible_stores g la cl) as [acc|] eqn:Ha.
-  - exists acc. split; [reflexivity|].
-    destruct acc as [|a r]; [discriminate|].
-    apply (list_stores_subset_partial g la cl name all (a :: r) ids Ha); [discriminate | exact Hl].
-  - unfold list_stores in Hl. rewrite Ha in Hl. discriminate.
-Qed.
 
 (* ------------------------------------------------------------------------------------ *)
 (* The regenerated handler table                                                         *)
@@ -649,4 +629,7 @@ Lemma unscoped_handlers_reviewed :
 Proof. vm_compute. reflexivity. Qed.
 
 Lemma handler_flags_computed : handler_flags = handler_flags_def.
+Proof. vm_compute. reflexivity. Qed.
+
+Lemma list_stores_empty_guard_present : c26_list_stores_empty_guard = true.
 Proof. vm_compute. reflexivity. Qed.
